@@ -197,6 +197,9 @@ func init() {
 	for _, op := range []string{"Load", "Store", "Swap", "CompareAndSwap"} {
 		intrinsics["(*sync/atomic.Bool)."+op] = atomicBool(op)
 	}
+	for _, op := range []string{"Load", "Store", "Swap", "CompareAndSwap"} {
+		intrinsics["(*sync/atomic.Pointer[T])."+op] = atomicOp(op, true)
+	}
 	intrinsics["(*sync/atomic.Value).Load"] = func(in *Interp, g *G, fv *FuncV, a []Value) Value {
 		p := atomicField(in, fv, a[0].(Ptr))
 		in.atomicAcquire(p)
